@@ -17,13 +17,14 @@ VARIABLES now,
           announcers, \* [Txs -> SUBSET Nodes]   (NodeIDs)
           received,   \* SUBSET Txs
           forwarded,  \* [Txs -> Nat]  number of times handed to the processor queue
+          fwdBase,    \* [Txs -> Nat]  the same count at the last Clean (what the manager has forgotten)
           req,        \* requests issued by the last step: set of <<tx, node>> (output only, overwritten)
           ret         \* result of the last call
-vars == <<now, known, lastReq, announcers, received, forwarded, req, ret>>
+vars == <<now, known, lastReq, announcers, received, forwarded, fwdBase, req, ret>>
 
 Init == /\ now = 0 /\ known = {} /\ lastReq = [t \in Txs |-> 0]
         /\ announcers = [t \in Txs |-> {}] /\ received = {}
-        /\ forwarded = [t \in Txs |-> 0] /\ req = {}
+        /\ forwarded = [t \in Txs |-> 0] /\ fwdBase = [t \in Txs |-> 0] /\ req = {}
         /\ ret = [op |-> "init"]
 
 Expired(t) == now - lastReq[t] >= 1
@@ -49,7 +50,7 @@ Announce(n, t) ==
         /\ req' = {<<t, n>>}
         /\ ret' = [op |-> "announce", n |-> n, t |-> t, req |-> TRUE]
         /\ UNCHANGED known
-  /\ UNCHANGED <<now, received, forwarded>>
+  /\ UNCHANGED <<now, received, forwarded, fwdBase>>
 
 Deliver(n, t) ==
   /\ IF t \in received THEN UNCHANGED <<received, forwarded, known, lastReq>>
@@ -58,7 +59,7 @@ Deliver(n, t) ==
           /\ known' = known \cup {t}
           /\ lastReq' = IF t \in known THEN lastReq ELSE [lastReq EXCEPT ![t] = now]
   /\ ret' = [op |-> "deliver", n |-> n, t |-> t] /\ req' = {}
-  /\ UNCHANGED <<now, announcers>>
+  /\ UNCHANGED <<now, announcers, fwdBase>>
 
 \* GetTxRequests(n, max): the implementation checks the limit only between internal buckets, so it
 \* may return more than max; what the property needs is that exactly the returned set S is stamped
@@ -73,22 +74,33 @@ PollMax(n, S, max) ==
      /\ announcers' = [t \in Txs |-> IF t \in S THEN announcers[t] \ {n} ELSE announcers[t]]
      /\ req' = {<<t, n>> : t \in S}
      /\ ret' = [op |-> "poll", n |-> n, txs |-> S, max |-> max]
-     /\ UNCHANGED <<now, known, received, forwarded>>
+     /\ UNCHANGED <<now, known, received, forwarded, fwdBase>>
 
 Unlimited == 1000000
 Poll(n) == PollMax(n, {t \in known : t \notin received /\ n \in announcers[t] /\ Expired(t)}, Unlimited)
 
 Tick == /\ now < MaxTime /\ now' = now + 1 /\ ret' = [op |-> "tick"] /\ req' = {}
-        /\ UNCHANGED <<known, lastReq, announcers, received, forwarded>>
+        /\ UNCHANGED <<known, lastReq, announcers, received, forwarded, fwdBase>>
+
+\* TxManager.Clean(oldest) with a cut-off after everything the manager holds: every entry is forgotten.  From
+\* then on a transaction is new again: its next announcement is requested, its next delivery is forwarded - once
+\* more, and once only, until the next Clean.  (MaxCleaned bounds the model, not the implementation.)
+MaxForwards == 2
+CleanAll == /\ known # {} /\ \A t \in Txs : forwarded[t] < MaxForwards
+            /\ known' = {} /\ received' = {} /\ announcers' = [t \in Txs |-> {}]
+            /\ lastReq' = [t \in Txs |-> 0] /\ fwdBase' = forwarded
+            /\ ret' = [op |-> "clean"] /\ req' = {}
+            /\ UNCHANGED <<now, forwarded>>
 
 Next == \/ \E n \in Nodes, t \in Txs : Announce(n, t) \/ Deliver(n, t)
         \/ \E n \in Nodes : Poll(n)
         \/ \E n \in Nodes, S \in SUBSET Txs : PollMax(n, S, 1)
-        \/ Tick
+        \/ Tick \/ CleanAll
 Spec == Init /\ [][Next]_vars
 
 \* ---- C06
-ForwardedAtMostOnce == \A t \in Txs : forwarded[t] = (IF t \in received THEN 1 ELSE 0)
+\* exactly once per period in which the manager remembers the transaction
+ForwardedAtMostOnce == \A t \in Txs : forwarded[t] - fwdBase[t] = (IF t \in received THEN 1 ELSE 0)
 \* a request is only issued for a tx that is new or whose previous request has timed out
 OneOutstandingPerWindow == [][\A p \in req' : p[1] \notin known \/ Expired(p[1])]_vars
 \* at most one peer is asked per step for one tx
